@@ -74,9 +74,20 @@ def spline_boxes(ctx, gen, inverse=False, prop='C01'):
                             extra['min_derivative'] = 0.03
                     kind, y, ld = S.impl_call(fam, x, params, inverse, False, box, None, extra=extra)
                     reqs.append(S.model_req(fam, x, params, inverse, False, box, None, cfg=extra))
-                    metas.append((fam, K, regime, box, x, kind, y, ld))
-    for meta, resp in zip(metas, leandriver.call(reqs)):
-        fam, K, regime, box, x, kind, y, ld = meta
+                    metas.append((fam, K, regime, box, x, kind, y, ld, params, extra))
+    resps = leandriver.call(reqs)
+    # inverse direction: the model's FORWARD map at the implementation's answers (backward-error criterion, see tcorr._backward)
+    back = {}
+    if inverse:
+        breqs, bidx = [], []
+        for k, meta in enumerate(metas):
+            fam, K, regime, box, x, kind, y, ld, params, extra = meta
+            if kind == 'ok' and bool(torch.isfinite(y).all()):
+                breqs.append(S.model_req(fam, y.clamp(box[0], box[1]), params, False, False, box, None, cfg=extra)); bidx.append(k)
+        for k, r in zip(bidx, leandriver.call(breqs)):
+            back[k] = S.model_result(r, 'f64')
+    for k, (meta, resp) in enumerate(zip(metas, resps)):
+        fam, K, regime, box, x, kind, y, ld, params, extra = meta
         my, mld, merr, alts = S.model_result(resp, 'f64')
         case = {'fn': fam + '_spline', 'K': K, 'regime': regime, 'box': box}
         if kind != 'ok':
@@ -86,9 +97,18 @@ def spline_boxes(ctx, gen, inverse=False, prop='C01'):
             continue
         for i in range(len(my)):
             ot = 2e-6 if (fam == 'cubic' and inverse) else 1e-9
-            ok = (not merr[i]) and (tcorr.close(y[i].item(), my[i], ot + 1e-15 * math.exp(min(60, abs(mld[i]))), ot) or any(tcorr.close(y[i].item(), a_, ot, ot) for a_ in (alts[i] if i < len(alts) else []))) and \
-                tcorr.close(ld[i].item(), mld[i], 1e-8 + 1e-15 * math.exp(min(60, abs(mld[i]))), 1e-8)
-            ctx.case(key=('box', fam, K, regime, box, i < 2), branch='splinebox/%s' % fam, nontrivial=True)
+            ok_out = (not merr[i]) and (tcorr.close(y[i].item(), my[i], ot + 1e-15 * math.exp(min(60, abs(mld[i]))), ot) or any(tcorr.close(y[i].item(), a_, ot, ot) for a_ in (alts[i] if i < len(alts) else [])))
+            ok_ld = (not merr[i]) and tcorr.close(ld[i].item(), mld[i], 1e-8 + 1e-15 * math.exp(min(60, abs(mld[i]))), 1e-8)
+            br = 'splinebox/%s' % fam
+            if not (ok_out and ok_ld) and k in back and not back[k][2][i]:
+                fo, fl = back[k][0][i], back[k][1][i]
+                scale = abs(box[3]) + abs(box[2])
+                b_out = tcorr.close(x[i].item(), fo, 1e-12 * scale, 1e-10)
+                b_ld = tcorr.close(ld[i].item(), -fl, 1e-8, 1e-8)
+                if (ok_out or b_out) and (ok_ld or b_ld):
+                    ok_out = ok_ld = True; br += '/backward-error'
+            ok = ok_out and ok_ld
+            ctx.case(key=('box', fam, K, regime, box, i < 2), branch=br, nontrivial=True)
             if not ok:
                 ctx.disagree(prop + '/spline-box', dict(case, x=x[i].item(), x_bits=bits.f64_bits(x[i].item())),
                              {'out': y[i].item(), 'ld': ld[i].item()}, {'out': my[i], 'ld': mld[i], 'err': merr[i]}, 'spline with non-default box differs')
